@@ -13,7 +13,7 @@ EXPLANATION = (
     "catch-all arm that reports the offending opcode."
 )
 ENUM_FLOOR = 1273
-GUARD_FLOOR = 1075
+GUARD_FLOOR = 1360
 
 
 def enum_items(seq):
@@ -68,7 +68,8 @@ def run(ctx):
             if not p["login"] and a.kind != "struct":
                 rl = wowm.RefLayouts(st["P"].model, scope_lookup(p))
                 lo, hi = wowm.SizeCalc(rl, 0).container(a)
-                if lo == hi and lo > 0:
+                if lo == hi:
+                    # body-less messages too: read_body is reachable without the opcode reader's assert_empty (expect_* helpers)
                     n_guard += 1
                     guards = [parse_guard(c) for c in ex.guards]
                     if not guards or guards[0] != ("ne", lo):
